@@ -161,7 +161,7 @@ func propCfg(prop string) genCfg {
 
 // kidsEverywhere enables child collections in the workloads of every property
 // that asks for them (off while the child-collection defects are being triaged).
-var kidsEverywhere = false
+var kidsEverywhere = true
 
 func pick[T any](r *simrt.Rand, xs []T) T { return xs[r.Intn(len(xs))] }
 
